@@ -7,6 +7,9 @@ encoding).  A state is (model state, complete internal state of the driver objec
 by replaying their operation path, every operation of the alphabet is applied in every state, and its
 result or exception class is compared with the model's; after every operation the whole observable
 state (iteration, len, membership of every domain element) of every object involved is compared too.
+The map harnesses carry a second object, a plain OrderedMap constructed from the map under test (None until the first
+'copy'), with its own model: construction from another map, every keyed operation on the copy and on the source, and
+aliasing between the two are part of the same search.
 """
 import copy
 import struct
@@ -30,8 +33,17 @@ META = {
             'in any position (arity 3 with b: the other two as lists); tuples that do not read b are run once per distinct state '
             'of a.  OrderedMap and OrderedMapSerializedKey (int, text, frozen list<int>, frozen '
             'map<int,int> keys incl. an alias key with the same encoding; protocol 4, thorough also 3 and 5): set/get/del/'
-            'popitem/contains/len/iter/keys/values/items/get/==/construction.  Total-order domains are also held to '
-            'ascending iteration; the other domains only to set semantics.',
+            'popitem/contains/len/iter/keys/values/items/get/==/construction (from pairs, an iterator with a repeated key, a dict, '
+            'keyword arguments, another map, another map plus keyword arguments).  Copies: in every harness the alphabet also has '
+            'copy (c = OrderedMap(m): a plain OrderedMap constructed from the map under test, i.e. from a plain OrderedMap or from '
+            'an OrderedMapSerializedKey as a map column decodes to; replaces an earlier copy), recopy (c = OrderedMap(c)) and '
+            'set/del/popitem/get/contains/len/iter/keys on the copy (written values differ from every value of the source) and '
+            'm == c / c == m / m != c; the copy has its own model (same pairs as the source at the time of copying, then '
+            'independent; keys of the type-less copy identified by python equality) and after every operation the whole observable '
+            'state of BOTH the source and the copy is compared, so a copy that cannot find its keys, and any storage shared '
+            'between source and copy (mutate one, observe the other, either direction), is a violation; sequences of source '
+            'mutators, copies and copy mutators interleaved to depth 4 (quick) / 6 (thorough).  Total-order domains are also held '
+            'to ascending iteration; the other domains only to set semantics.',
     'note': 'Dedup key contains the complete __dict__ of the driver objects, so no behaviour is abstracted away.  Mixed '
             'non-comparable elements (int/None) are outside the statement ("any single comparable type") and not generated.',
     'design_ref': 'C33',
@@ -749,7 +761,12 @@ def judge(part, spec, path, op, w, ap):
     obs = w.observe()
     if obs:
         clean = False
-        part.violation(fingerprint(spec, op, obs[0]), '%s after %r then %r: %s' % (spec_name(spec), list(path), op, obs[1]), case)
+        fop = op
+        if spec[0] == 'omap' and path:
+            pre = build(spec, path)[0].observe()
+            if pre and pre[0] == obs[0]:
+                fop = ('in-already-diverged-state',)     # reported where it arose (a shorter path); one line for what follows
+        part.violation(fingerprint(spec, fop, obs[0]), '%s after %r then %r: %s' % (spec_name(spec), list(path), op, obs[1]), case)
     part.outcome((spec[0], op[0], got[0]))
     return w, clean
 
@@ -873,7 +890,8 @@ def run(ctx):
     ctx.cov['harnesses'] = len(sp)
     ctx.cov['harnesses_at_fixpoint_within_depth'] = fix
     ctx.cov['rule'] = ('%d harnesses (6 SortedSet element domains, OrderedMap x 5 key kinds, OrderedMapSerializedKey x 4 key kinds x protocols); '
-                       'breadth-first to depth %d over mutators, every query in every state; state = (model, full internal state); '
+                       'breadth-first to depth %d over mutators (maps: of the map, copy construction, and mutators of the copy), every query in '
+                       'every state; state = (model(s), full internal state of every object incl. the copy); '
                        'SortedSet: plus every argument tuple (0..3 arguments, each a subset of the domain in every container shape, or '
                        'a / b) of union/intersection/difference in every state (counters argument_tuples_*: those reading b in every state, '
                        'the others once per distinct (model, internal state) of a = states_of_a); in the two partially ordered '
@@ -887,6 +905,13 @@ def run(ctx):
     ctx.assume('OrderedMapSerializedKey keys are identified by the protocol-v3+ encoding of the key as the driver would send it '
                '(map keys in their own iteration order); the plain OrderedMap has no CQL type, its keys are identified by python '
                'equality and only key values whose pickles are canonical are generated (no containers of equal-but-distinct strings)')
+    ctx.assume('a plain OrderedMap copied from an OrderedMapSerializedKey holds the key objects the source iterates; in the copy '
+               '(no CQL type) a list key and its tuple alias are two keys; a dict key and its OrderedDict alias are python-equal '
+               'but of different type: operations on the copy with one of them while the copy holds the other are not generated, '
+               'and source == copy is compared only while neither holds an alias key object')
+    ctx.assume('OrderedMapSerializedKey cannot be constructed from another map (its constructor takes the key type and protocol '
+               'version only), so the only copy direction is map -> plain OrderedMap; copy.copy/deepcopy/pickle are not part of '
+               'the statement and not generated')
     ctx.assume('OrderedMap == OrderedMap with the same pairs in another order is not defined by the statement and not compared')
     ctx.assume('mixed non-comparable elements (int with None) are outside the statement and not generated')
     ctx.assume('operands of the set methods are sets or sequences without repeated elements (SortedSet, set, frozenset, list, tuple); '
